@@ -268,4 +268,12 @@ Proof. intros H. unfold ch_route. rewrite H. reflexivity. Qed.
 
 (* ------------------------------------------------------------------ non-vacuity *)
 Definition ex_hv (m i : nat) : Z := Z.of_nat ((m * 37 + i * 101 + m * i * 7) mod 251).
-Eval vm_compute in (ring_keys (ring_set ex_hv 3 [0;1;2]%nat), map (ring_lookup (ring_set ex_hv 3 [0;1;2]%nat)) [0; 1; 38; 150; 240; 300]).
+Example ring_example :
+  no_collision ex_hv 3 [0;1;2]%nat /\
+  ring_keys (ring_set ex_hv 3 [0;1;2]%nat) = [0; 2; 37; 53; 74; 101; 145; 189; 202] /\
+  map (ring_lookup (ring_set ex_hv 3 [0;1;2]%nat)) [0; 1; 38; 150; 240; 300] = map Some [0; 1; 2; 2; 0; 0]%nat /\
+  map (ring_lookup (ring_set ex_hv 3 (remove Nat.eq_dec 1%nat [0;1;2]%nat))) [0; 1; 38; 150; 240; 300] = map Some [0; 2; 2; 2; 0; 0]%nat.
+Proof.
+  split; [|split; [|split]]; try (vm_compute; reflexivity).
+  unfold no_collision. vm_compute. repeat (constructor; [simpl; intuition discriminate|]). constructor.
+Qed.
